@@ -365,7 +365,7 @@ func (c *Ctx) smtInst(o *Obligation) (string, bool) {
 	// variables of the enclosing loops, zero)
 	n2 := 0
 	for _, q := range hyps {
-		if len(q.names) == 2 && q.sorts[0] == SInt && q.sorts[1] == SInt {
+		if len(q.names) == 2 && q.sorts[0] == SInt && q.sorts[1] == SInt && appPattern(q) == "" {
 			n2++
 		}
 	}
@@ -379,6 +379,7 @@ func (c *Ctx) smtInst(o *Obligation) (string, bool) {
 			core[v], core["(+ "+v+" 1)"] = true, true
 		}
 	}
+	prefixText := b.String() + " " + goal + " " + o.Guard.S
 	var insts []string
 	for _, q := range hyps {
 		n := len(q.names)
@@ -419,6 +420,12 @@ func (c *Ctx) smtInst(o *Obligation) (string, bool) {
 			}
 			for _, v := range cs {
 				insts = append(insts, q.instantiate([]string{v}))
+			}
+		} else if pt := appPattern(q); pt != "" {
+			// an axiom with an explicit trigger that is an application of an uninterpreted function
+			// (floor division facts): instantiated where a matching term occurs, not at all pairs
+			for _, binds := range matchPatternIn(pt, q.names, prefixText) {
+				insts = append(insts, q.instantiate(binds))
 			}
 		} else {
 			if len(skolems) == 2 {
@@ -527,9 +534,17 @@ func (c *Ctx) smtInst(o *Obligation) (string, bool) {
 				for _, v := range wc {
 					have[v] = true
 				}
+				loopVar := map[string]bool{}
+				for _, v := range o.CtxInts {
+					loopVar[v] = true
+				}
 				for _, v := range allIntVars {
-					for _, w := range []string{v, "(+ " + v + " 1)", "(+ " + v + " 2)"} {
-						if !have[w] && len(wc) < 700 {
+					ws := []string{v, "(+ " + v + " 1)"}
+					if loopVar[v] {
+						ws = append(ws, "(+ "+v+" 2)") // ranging over s[1:] visits s[i+1]
+					}
+					for _, w := range ws {
+						if !have[w] && len(wc) < 500 {
 							have[w] = true
 							wc = append(wc, w)
 						}
@@ -722,4 +737,140 @@ func isProgramVar(sym string) bool {
 		j++
 	}
 	return j > 0 && j < len(rest) && rest[j] == '!'
+}
+
+// appPattern returns the trigger term of a hypothesis whose explicit :pattern is a single
+// application of an uninterpreted function other than select (e.g. (umul b (udiv n b))).
+func appPattern(q *quantHyp) string {
+	if q.pattern == "" {
+		return ""
+	}
+	k := strings.Index(q.pattern, "((")
+	if k < 0 {
+		return ""
+	}
+	t := q.pattern[k+1:]
+	// t starts with the first trigger term "(f ...)"
+	depth, end := 0, -1
+	for i := 0; i < len(t); i++ {
+		if t[i] == '|' {
+			if j := strings.IndexByte(t[i+1:], '|'); j >= 0 {
+				i += j + 1
+				continue
+			}
+		}
+		if t[i] == '(' {
+			depth++
+		} else if t[i] == ')' {
+			depth--
+			if depth == 0 {
+				end = i
+				break
+			}
+		}
+	}
+	if end < 0 {
+		return ""
+	}
+	t = t[:end+1]
+	if strings.HasPrefix(t, "(select ") {
+		return ""
+	}
+	return t
+}
+
+// matchPatternIn finds the sub-terms of text that match the pattern (binder names are pattern
+// variables) and returns the bindings, in binder order.
+func matchPatternIn(pat string, names []string, text string) [][]string {
+	op, _ := splitTop(pat)
+	if op == "" {
+		return nil
+	}
+	// named terms (0-ary define-funs) are looked through when an application is expected
+	defs := map[string]string{}
+	for _, l := range strings.Split(text, "\n") {
+		if strings.HasPrefix(l, "(define-fun |") {
+			if k := strings.Index(l, "| () Int "); k > 0 && strings.HasSuffix(l, ")") {
+				defs[l[len("(define-fun "):k+1]] = l[k+len("| () Int ") : len(l)-1]
+			}
+		}
+	}
+	head := "(" + op + " "
+	isVar := map[string]int{}
+	for i, n := range names {
+		isVar[n] = i
+	}
+	var match func(p, t string, b []string) bool
+	match = func(p, t string, b []string) bool {
+		p, t = strings.TrimSpace(p), strings.TrimSpace(t)
+		if i, ok := isVar[p]; ok {
+			if b[i] == "" {
+				b[i] = t
+				return true
+			}
+			return b[i] == t
+		}
+		if !strings.HasPrefix(p, "(") {
+			return p == t
+		}
+		if !strings.HasPrefix(t, "(") {
+			if body, ok := defs[t]; ok {
+				t = strings.TrimSpace(body)
+			}
+		}
+		po, pa := splitTop(p)
+		to, ta := splitTop(t)
+		if po != to || len(pa) != len(ta) {
+			return false
+		}
+		for i := range pa {
+			if !match(pa[i], ta[i], b) {
+				return false
+			}
+		}
+		return true
+	}
+	seen := map[string]bool{}
+	var out [][]string
+	for i := 0; i+len(head) < len(text) && len(out) < 40; i++ {
+		if !strings.HasPrefix(text[i:], head) {
+			continue
+		}
+		depth, end := 0, -1
+		for j := i; j < len(text); j++ {
+			if text[j] == '|' {
+				if k := strings.IndexByte(text[j+1:], '|'); k >= 0 {
+					j += k + 1
+					continue
+				}
+			}
+			if text[j] == '(' {
+				depth++
+			} else if text[j] == ')' {
+				depth--
+				if depth == 0 {
+					end = j
+					break
+				}
+			}
+		}
+		if end < 0 {
+			continue
+		}
+		b := make([]string, len(names))
+		if match(pat, text[i:end+1], b) {
+			ok := true
+			for _, v := range b {
+				if v == "" || strings.Contains(v, "|q ") {
+					ok = false
+				}
+			}
+			key := strings.Join(b, "\x00")
+			if ok && !seen[key] {
+				seen[key] = true
+				out = append(out, b)
+			}
+		}
+	}
+	return out
 }
